@@ -3,7 +3,9 @@
    heads of the definition lines.  The candidate function cand_def applies at the first token of a
    definition line (at `async` when present; the `def` inside `async def` overlaps and is skipped) and
    nowhere else: other positions carry no `def` keyword, and an `async` keyword is followed, on its own
-   line, by a token that is not `def` (a line does not end with `async`). *)
+   line, by a token that is not `def` (a line does not end with `async`).  The pattern is indifferent to line
+   breaks, so a header over several physical lines is found like a one-line header; in its parameter groups
+   only parentheses count (pgroups), exactly as for the run function groups_len. *)
 From Verif Require Import Base Regex Token TokEngine Headers Blocks Spec HeaderSpec LexShapes PySpec Grammar GrammarAll PyGrammar.
 From Verif Require Import GrammarProofsParen GrammarProofsBrace GrammarProofsHeaders GrammarAllProofsTok GrammarAllProofsWf
   GrammarAllProofsSel GrammarAllProofsCand PyGrammarProofsWf.
@@ -64,12 +66,68 @@ Proof.
   - rewrite (kw_at_nth _ _ _ _ Ek), Hd. reflexivity.
 Qed.
 
+(* ---------- Python parenthesis groups (only parentheses count) and the run function groups_len ---------- *)
+Lemma pplain_inv t : pplain t = true -> is_lparen t = false /\ is_rparen t = false.
+Proof.
+  unfold pplain. intros H. apply andb_prop in H as [H1 H2].
+  apply negb_true_iff in H1. apply negb_true_iff in H2. auto.
+Qed.
+
+(* inside a group (depth >= 1) a pinner sequence is consumed entirely and leaves the depth unchanged *)
+Lemma groups_len_pinner g : pinner g -> forall (d : Z) rest, (0 < d)%Z ->
+  groups_len (g ++ rest) d = length g + groups_len rest d.
+Proof.
+  induction 1 as [|t r Ht Hr IH|o g c r Ho Hg IHg Hc Hr IHr]; intros d rest Hd.
+  - reflexivity.
+  - apply pplain_inv in Ht as (H1 & H2). cbn [app].
+    rewrite groups_len_inside_plain by assumption. rewrite IH by assumption. reflexivity.
+  - replace ((o :: g ++ c :: r) ++ rest) with (o :: g ++ c :: (r ++ rest)) by (norm_app; reflexivity).
+    rewrite groups_len_inside_lparen by assumption.
+    rewrite IHg by lia. rewrite groups_len_inside_rparen by (assumption || lia).
+    replace (d + 1 - 1)%Z with d by lia. rewrite IHr by assumption.
+    norm_len. lia.
+Qed.
+
+(* a run of groups followed by a token that is not "(" is consumed exactly *)
+Lemma groups_len_pgroups gs : pgroups gs -> forall t rest, is_lparen t = false ->
+  groups_len (gs ++ t :: rest) 0 = length gs.
+Proof.
+  induction 1 as [g Hg|g r Hg Hr IH]; intros t rest Ht.
+  - destruct Hg as [o g' c Ho Hg' Hc].
+    replace ((o :: g' ++ [c]) ++ t :: rest) with (o :: g' ++ c :: t :: rest) by (norm_app; reflexivity).
+    rewrite groups_len_outside_lparen by exact Ho.
+    rewrite (groups_len_pinner g' Hg' 1%Z) by lia.
+    rewrite groups_len_inside_rparen by (assumption || lia).
+    replace (1 - 1)%Z with 0%Z by lia. rewrite groups_len_outside_stop by exact Ht.
+    norm_len. lia.
+  - destruct Hg as [o g' c Ho Hg' Hc].
+    replace (((o :: g' ++ [c]) ++ r) ++ t :: rest) with (o :: g' ++ c :: (r ++ t :: rest)) by (norm_app; reflexivity).
+    rewrite groups_len_outside_lparen by exact Ho.
+    rewrite (groups_len_pinner g' Hg' 1%Z) by lia.
+    rewrite groups_len_inside_rparen by (assumption || lia).
+    replace (1 - 1)%Z with 0%Z by lia. rewrite IH by exact Ht.
+    norm_len. lia.
+Qed.
+
+Lemma pgroups_head gs : pgroups gs -> exists o r, gs = o :: r /\ is_lparen o = true.
+Proof.
+  induction 1 as [g Hg|g r Hg Hr IH]; destruct Hg as [o g' c Ho Hg' Hc].
+  - exists o, (g' ++ [c]). split; [reflexivity | exact Ho].
+  - exists o, ((g' ++ [c]) ++ r). split; [reflexivity | exact Ho].
+Qed.
+
+Lemma ge0_pgroups gs t R : pgroups gs -> is_lparen t = false -> ge0 (gs ++ t :: R) = Some (length gs).
+Proof.
+  intros Hgs Ht. pose proof (groups_len_pgroups gs Hgs t R Ht) as Hrun.
+  destruct (pgroups_head gs Hgs) as (p & r & -> & Hp). unfold ge0. cbn [app] in *. rewrite Hp, Hrun. reflexivity.
+Qed.
+
 (* ---------- the head of a definition line is accepted ---------- *)
 Lemma groups_end_2 a b W : groups_end (a :: b :: W) 2 = match ge0 W with Some e => Some (S (S e)) | None => None end.
 Proof. rewrite !groups_end_cons, groups_end_0. destruct (ge0 W); reflexivity. Qed.
 
 Lemma acc_def_head d nm gs r0 X :
-  kw_is d s_def = true -> is_name nm = true -> groups gs -> is_lparen r0 = false ->
+  kw_is d s_def = true -> is_name nm = true -> pgroups gs -> is_lparen r0 = false ->
   acc cand_def follow_any ((d :: nm :: gs) ++ r0 :: X) 0 = Some (1, length (d :: nm :: gs)).
 Proof.
   intros Hd Hn Hg Hr. unfold acc, cand_def. cbn [app].
@@ -77,11 +135,11 @@ Proof.
   rewrite (kw_def_not_async d Hd).
   change (kw_at (d :: nm :: gs ++ r0 :: X) 0 s_def) with (kw_is d s_def).
   change (name_at (d :: nm :: gs ++ r0 :: X) 1) with (is_name nm).
-  rewrite Hd, Hn. cbn [andb]. rewrite groups_end_2, (ge0_groups gs r0 X Hg Hr). reflexivity.
+  rewrite Hd, Hn. cbn [andb]. rewrite groups_end_2, (ge0_pgroups gs r0 X Hg Hr). reflexivity.
 Qed.
 
 Lemma acc_async_head a d nm gs r0 X :
-  kw_is a s_async = true -> kw_is d s_def = true -> is_name nm = true -> groups gs -> is_lparen r0 = false ->
+  kw_is a s_async = true -> kw_is d s_def = true -> is_name nm = true -> pgroups gs -> is_lparen r0 = false ->
   acc cand_def follow_any ((a :: d :: nm :: gs) ++ r0 :: X) 0 = Some (2, length (a :: d :: nm :: gs)).
 Proof.
   intros Ha Hd Hn Hg Hr. unfold acc, cand_def. cbn [app].
@@ -89,7 +147,7 @@ Proof.
   rewrite Ha.
   change (kw_at (a :: d :: nm :: gs ++ r0 :: X) 1 s_def) with (kw_is d s_def).
   change (name_at (a :: d :: nm :: gs ++ r0 :: X) 2) with (is_name nm).
-  rewrite Hd, Hn. cbn [andb]. rewrite groups_end_cons, groups_end_2, (ge0_groups gs r0 X Hg Hr). reflexivity.
+  rewrite Hd, Hn. cbn [andb]. rewrite groups_end_cons, groups_end_2, (ge0_pgroups gs r0 X Hg Hr). reflexivity.
 Qed.
 
 Lemma last_app_ne {A} (l1 l2 : list A) d : l2 <> [] -> last (l1 ++ l2) d = last l2 d.
@@ -100,13 +158,13 @@ Proof.
   - cbn [last] in *. exact IH.
 Qed.
 
-(* a definition line: one header, at its head *)
-Lemma def_line_seg off l nmo heo c ln B :
-  def_line l nmo heo -> line_at c ln l ->
+(* a definition header (possibly over several lines): one header, at its head *)
+Lemma def_line_seg off hl l nmo heo B :
+  def_line hl l nmo heo -> kw_is (last l dtok) s_async = false ->
   Seg cand_def follow_any off l B [mkHeader (off + nmo) off (off + heo)].
 Proof.
-  intros Hd (_ & _ & _ & _ & Hlast).
-  destruct Hd as [d nm gs rest Hkd Hn Hg _ Hr Hlp Hnd | a d nm gs rest Hka Hkd Hn Hg _ Hr Hlp Hnd].
+  intros Hd Hlast.
+  destruct Hd as [d nm gs rest Hkd Hn Hg _ Hr Hlp Hnd _ | a d nm gs rest Hka Hkd Hn Hg _ Hr Hlp Hnd _].
   - destruct rest as [|r0 rest]; [congruence|]. cbn [hd] in Hlp.
     change (d :: nm :: gs ++ r0 :: rest) with ((d :: nm :: gs) ++ r0 :: rest) in *.
     rewrite last_app_ne in Hlast by discriminate.
@@ -147,11 +205,12 @@ Proof.
     apply (Seg_app cand_def follow_any).
     + apply (plain_line_seg off l c ln); assumption.
     + apply IH.
-  - intros c off lo l ln nmo heo c' sub ds hi Hl _ Hd _ _ IH B. cbn [map].
+  - intros c off lo l ln hl nmo heo c' sub ds hi Hl _ Hd _ _ IH B. cbn [map].
     change (py_header_of (mkPd (off + nmo) off (off + heo) (off + length l) (off + length l + length sub)) :: map py_header_of ds)
       with ([mkHeader (off + nmo) off (off + heo)] ++ map py_header_of ds).
     apply (Seg_app cand_def follow_any).
-    + apply (def_line_seg off l nmo heo c ln); assumption.
+    + apply (def_line_seg off hl l nmo heo); [exact Hd|].
+      destruct Hl as (_ & _ & _ & _ & _ & _ & Hlast). exact Hlast.
     + apply IH.
   - intros c off lo e ds hi _ IH. exact IH.
   - intros c off lo e ds1 mid r ds2 hi _ IHe _ IHr B. rewrite map_app.
